@@ -143,6 +143,9 @@ def alphabet():
     A += [dtd('P1D', 86400), dtd('PT24H', 86400), dtd('PT1H', 3600), dtd('-PT1H', -3600), dtd('PT0S', 0)]
     A += [ymd('P1Y', 12), ymd('P12M', 12), ymd('P1M', 1), ymd('-P1M', -1)]
     one, two, onez, a_, null = num('1'), num('2'), num('1.0'), st('a'), VNULL
+    # lists of one boolean: a non-boolean operand of and / or counts as null even where a singleton list would be unwrapped for a function
+    # argument (seeded change C09_f: and / or passed their operands through the boolean coercion)
+    A += [lst(VTRUE), lst(VFALSE), lst(lst(VTRUE)), lst(VTRUE, VFALSE)]
     A += [lst(), lst(one), lst(onez), lst(null), lst(one, two), lst(two, one), lst(lst(one)), lst(one, a_), lst(a_), lst(rng(one, True, two, True))]
     A += [cx(), cx(a=one), cx(a=onez), cx(a=null), cx(b=one), cx(a=one, b=two), cx(b=two, a=one), cx(a=one, c=a_), cx(c=one, d=one),
           cx(a=cx(b=null)), cx(a=cx(b=one)), cx(a=lst(one))]
